@@ -307,6 +307,50 @@ def rule_K(prog, chk):
     chk.extra["keyword_prefix_clashes"] = ["%s<%s" % c_ for c_ in clashes]
 
 
+def rule_M(prog, chk):
+    """M - a record is read into the member it was written from.  Writer and reader name their records (`_recordWrite(os, "Z-Maximum",
+    _zmax)` / `_recordRead(is, "Z-Maximum", _zmax)`): when the same title designates a plain member on both sides it is the SAME member
+    (the lower limit written under the title of the upper one comes back as [zmin, zmin])."""
+    def strip(e):
+        while e is not None and e["k"] in ("Cast", "Paren") and e.get("c"):
+            e = e["c"][0]
+        return e
+
+    def member(e):
+        e = strip(e)
+        if e is not None and e["k"] == "MemberExpr" and e.get("mk") == "field" and (not e.get("c") or e["c"][0] is None or e["c"][0]["k"] == "This"):
+            return e["n"]
+        return None
+
+    def records(f, prim):
+        out = {}
+        for x in f.walk():
+            if x["k"] in ("Call", "MCall") and (x.get("callee") or "").split("::")[-1].split("<")[0] == prim:
+                a = call_args(x)
+                if len(a) >= 3 and a[1] is not None and a[2] is not None:
+                    lits = [z for z in walk(a[1]) if z["k"] in ("Str", "String", "StringLiteral")]
+                    title = show(lits[0]) if len(lits) == 1 else ""
+                    if title.startswith('"'):
+                        out.setdefault(title, []).append((member(a[2]), x))
+        return out
+    n = 0
+    for c, w, r in pairs(prog):
+        ws, rs = records(w, "_recordWrite"), records(r, "_recordRead")
+        for title in sorted(set(ws) & set(rs)):
+            if len(ws[title]) != 1 or len(rs[title]) != 1:
+                continue
+            (mw, xw), (mr, _xr) = ws[title][0], rs[title][0]
+            if mw is None or mr is None:
+                continue
+            n += 1
+            ok = mw == mr
+            chk.analysed(w)
+            chk.ob("M", "%s: record %s is written from and read into the same member" % (c, title), w.loc(xw), ok,
+                   detail=None if ok else "the writer stores `%s` under the title %s that the reader loads into `%s`: after a save / reload `%s` "
+                   "holds the value of `%s`" % (mw, title, mr, mr, mw), key="M|%s|%s" % (c, title))
+    chk.floor("M", n, 15)
+
+
 def rule_B(prog, chk):
     """B - sibling builders establish the same state.  The methods `buildFromX` / `resetFromX` / `initFromX` of one class are alternative
     ways of putting the object in its built state (a reader picks the one that matches what the file holds): a state member that all
@@ -459,6 +503,7 @@ def main(tier):
         chk.units += [u for u in oprog.units if u not in chk.units]
     c08_order.rule_O(oprog, chk, 2)
     rule_K(prog, chk)
+    rule_M(prog, chk)
     rule_B(oprog, chk)
     rule_D(prog, chk)
     return chk.finish()
